@@ -9,6 +9,14 @@
 //!    and agreement of the scan with a point read of every key.
 use crate::c01::state_with_ids;
 use crate::common::*;
+
+fn tainted(v: Verdict, taint: &Option<String>) -> Verdict {
+    match (v, taint) {
+        (Verdict::Ok, Some(c)) => Verdict::Taint { class: c.clone() },
+        (v, _) => v,
+    }
+}
+
 use crate::store::*;
 use sst::Cursor;
 use std::ops::Bound;
@@ -223,7 +231,7 @@ pub fn run_history(rec: &mut Recorder, seed: u64, hidx: u64, len: usize, nkeys: 
                 rec.count("scans.empty_result_set");
             }
             let nontrivial = live.len() >= 2 && comps_with_tomb > 0 && d.nfiles() >= 1;
-            rec.case(&req, &rendered, verdict, if nontrivial { Some(fnv(req.as_bytes())) } else { None });
+            rec.case(&req, &rendered, tainted(verdict, &taint), if nontrivial { Some(fnv(req.as_bytes())) } else { None });
         }
     }
     rec.add("flushes", sim.flushes);
